@@ -2,6 +2,7 @@
 
 use crate::c01::Pkg;
 use crate::cont::*;
+use crate::content::{Comp, ContentCase, Ent, Hint, Item, Src};
 use crate::dump::*;
 use crate::proto::*;
 use crate::rng::{Fp, Rng};
@@ -23,6 +24,16 @@ pub fn gen(seed: u64, tier: Tier, k: u64) -> Value {
         2 => 1,
         _ => 2,
     };
+    if (tier == Tier::Quick && k == 7) || (tier == Tier::Thorough && k % 250 == 7) {
+        // a container of 256 packs or more (pack counts and pack ids beyond one byte), as loose files and joined into one file
+        let mut case = gen_small(&mut rng, tier, Pkg::OneFile, 0, 4);
+        let n_content = *rng.pick(&[255usize, 256, 257, 300]);
+        for _ in 1..n_content {
+            let items = vec![Item { len: rng.range(1, 60) as usize, ent: Ent::High, hint: *rng.pick(&Hint::ALL), src: Src::Mem, dup_of: None, cat_of: None }];
+            case.extra.push(ContentCase { seed: rng.next(), comp: if rng.chance(1, 8) { Comp::Zstd(1) } else { Comp::None }, cached: false, items });
+        }
+        return json!({"case": case.to_json(), "scn_seed": rng.next(), "many": true});
+    }
     let case = gen_small(&mut rng, tier, Pkg::OneFile, n_extra, 7);
     json!({"case": case.to_json(), "scn_seed": rng.next()})
 }
@@ -106,6 +117,30 @@ pub fn run(desc: &Value, ctx: &Ctx) -> CaseOut {
             }
         }};
     }
+    if jbool(desc, "many") {
+        let r = util::catch(|| {
+            let n_packs = 2 + base.extra.len();
+            out.obs.max("packs_in_one_container", n_packs as u64);
+            let loose = scratch.path("loose");
+            std::fs::create_dir_all(&loose).unwrap();
+            match create_loose(&base, &loose, &|_, f| f.to_string(), None) {
+                Ok(created) => judge!("many-packs-loose", &created.path, &base, &created),
+                Err(e) => out.violate(json!({"kind": "create-error", "scenario": "many-packs-loose", "message": util::normalize_msg(&e), "profile": profile()}), format!("C10: creating {n_packs} loose packs failed: {e}"), json!({})),
+            }
+            let one = scratch.path("one");
+            std::fs::create_dir_all(&one).unwrap();
+            match create_loose(&base, &one, &|_, f| f.to_string(), Some("all.jbk")) {
+                Ok(created) => judge!("many-packs-onefile", &created.path, &base, &created),
+                Err(e) => out.violate(json!({"kind": "create-error", "scenario": "many-packs-onefile", "message": util::normalize_msg(&e), "profile": profile()}), format!("C10: joining {n_packs} packs into one file failed: {e}"), json!({})),
+            }
+        });
+        if let Err(p) = r {
+            out.violate_panic("C10", "scenario", "many", &p);
+        }
+        out.obs.add("scenarios", scenarios);
+        out.nontrivial = scenarios >= 2;
+        return out;
+    }
     let r = util::catch(|| {
         // 1. the three packagings, created independently
         let mut noconcat: Option<(ContCase, CreatedCont)> = None;
@@ -142,7 +177,20 @@ pub fn run(desc: &Value, ctx: &Ctx) -> CaseOut {
                     copy_into(&extras, &dir);
                     let inputs: Vec<PathBuf> = perm.iter().map(|i| main[*i].clone()).collect();
                     let outp = camino::Utf8PathBuf::from_path_buf(dir.join("all.jbk")).unwrap();
-                    match util::catch(|| jbk::tools::concat(&inputs, &outp)) {
+                    // the first order of each kind is joined by the command line tool (`jbk concat -o out in…`) when it is there
+                    let by_cli = if pi == 0 { crate::cli::concat(&inputs, outp.as_std_path()) } else { None };
+                    if pi == 0 {
+                        out.obs.inc(if by_cli.is_some() { "joined_by_command_line" } else { "command_line_tool_unavailable" });
+                    }
+                    let joined = match by_cli {
+                        Some(Ok(())) => Ok(Ok(())),
+                        Some(Err(e)) => {
+                            out.violate(json!({"kind": "concat-error", "scenario": label, "message": util::normalize_msg(&e), "api": "jbk concat", "profile": profile()}), format!("C10: `jbk concat` failed: {e}"), json!({}));
+                            continue;
+                        }
+                        None => util::catch(|| jbk::tools::concat(&inputs, &outp)),
+                    };
+                    match joined {
                         Ok(Ok(())) => {
                             // include all extras too in one variant
                             judge!(label, outp.as_std_path(), case, created);
